@@ -19,7 +19,7 @@
    copied (q_of / the ghost component of what receive returns). *)
 From V Require Import model.Base.
 
-Definition off := nat.
+Notation off := nat (only parsing).   (* chunk index *)
 
 Record qent := { q_off : off; q_idx : nat (* ghost *) }.
 
